@@ -146,9 +146,9 @@ def render_set(case, idx):
 
 TIERS = {
     # n_mut, n_soup, n_nest, n_fault, n_multi, n_line, n_struct; token cfgs; module-set cfg; statement-placement cfg
-    "quick": dict(gen=[9000, 1500, 480, 1200, 1500, 4000, 600], tok=["PipelineTokens_quick.cfg"], mc="MC_Pipeline_quick.cfg",
+    "quick": dict(xgen=[150, 120, 2], gen=[9000, 1500, 480, 1200, 1500, 4000, 600], tok=["PipelineTokens_quick.cfg"], mc="MC_Pipeline_quick.cfg",
                   place="MC_Placement_quick.cfg"),
-    "thorough": dict(gen=[120000, 20000, 1440, 12000, 15000, 50000, 6000],
+    "thorough": dict(xgen=[2500, 1200, 3], gen=[120000, 20000, 1440, 12000, 15000, 50000, 6000],
                      tok=["PipelineTokens_quick.cfg", "PipelineTokens_thorough3.cfg"], mc="MC_Pipeline_thorough.cfg",
                      place="MC_Placement_quick.cfg"),
 }
@@ -270,6 +270,16 @@ def _compute_run(tier, seed, d):
         for line in f:
             cases.append(json.loads(line))
     os.remove(gen_path)
+    # (c) programs of the generators of OTHER checks (read-only use of their harness binaries): the well-formed random
+    # programs of C01 (expected to compile: I4) and the permutation family of C11 in several declaration orders.  Whatever
+    # those checks conclude about values and verdicts, here the compilations have to END as the protocol says.
+    n_mach, n_perm, n_orders = cfg["xgen"]
+    for exe, args in (("pvh_machine", ["sources", n_mach, seed, gen_path]), ("pvh_modules", ["perm-sources", n_perm, seed, n_orders, gen_path])):
+        common.pvh(args, exe_name=exe, timeout=1800)
+        with open(gen_path) as f:
+            for line in f:
+                cases.append(json.loads(line))
+        os.remove(gen_path)
     cases_path = os.path.join(d, "cases.ndjson")
     common.write_ndjson(cases_path, cases)
     events_path = os.path.join(d, "events.ndjson")
